@@ -81,6 +81,22 @@ unsafe impl<T> Trace for Lazy<T> {
     }
 }
 
+#[cfg(gluon_verif)]
+impl<T> Lazy<T> {
+    /// `(state, stored value)`: 0 = thunk, 1 = blackhole, 2 = value
+    pub fn verif_with_state<R>(&self, f: impl FnOnce(u8, Option<crate::Variants>) -> R) -> R {
+        match &*self.value.lock().unwrap() {
+            Lazy_::Thunk(value) => f(0, Some(crate::Variants::new(value))),
+            Lazy_::Blackhole(..) => f(1, None),
+            Lazy_::Value(value) => f(2, Some(crate::Variants::new(value))),
+        }
+    }
+
+    pub fn verif_owner(&self) -> usize {
+        self.thread.verif_addr()
+    }
+}
+
 impl<T> VmType for Lazy<T>
 where
     T: VmType,
